@@ -460,6 +460,7 @@ func init() {
 				return c11Finish(c, fmt.Sprintf("random(%s, %s)", val.Debug(a), val.Debug(b)))
 			}},
 		},
+		Sanitize: []string{"pairs", "unary", "index", "random"},
 		Floors: []core.Floor{{Key: "tuples", Quick: 300000, Thor: 3000000}, {Key: "law_evaluations", Quick: 20000, Thor: 2000000}, {Key: "tag:op:", Quick: 400, Thor: 400}, {Key: "nontrivial", Quick: 20000, Thor: 1000000}},
 		Extra: func(a *core.Agg, cov map[string]any) {
 			cov["exhaustive_subspaces"] = "pairs, unary and index families enumerate the pool completely in both tiers"
